@@ -29,11 +29,18 @@ class TabularPolicy(StateActionTable,ProbabilityTable,Policy):
         else:
             raise ValueError("Discount rate must be in >= 0 and <= 1")
 
+    def _policy_matrix_on(self, mdp: TabularMarkovDecisionProcess):
+        # actions of the mdp that the policy table does not list have probability 0
+        policy_matrix = np.zeros((len(mdp.state_list), len(mdp.action_list)))
+        action_columns = [mdp.action_list.index(a) for a in self.action_list]
+        policy_matrix[:, action_columns] = np.array(self[mdp.state_list,])
+        return policy_matrix
+
     def _evaluate_on_discounted(
         self, 
         mdp: TabularMarkovDecisionProcess,
     ):
-        policy_matrix = np.array(self[mdp.state_list,][:,mdp.action_list])
+        policy_matrix = self._policy_matrix_on(mdp)
         absorbing_state_vec = mdp.absorbing_state_vec.astype(bool)
         state_rewards = np.einsum(
             "sa,sa->s",
@@ -95,7 +102,7 @@ class TabularPolicy(StateActionTable,ProbabilityTable,Policy):
             "Only negative rewards are currently supported for undiscounted evaluation"
         assert undiscounted_reward_criteria in ["total_reward"], \
             "Only total reward is currently supported for undiscounted evaluation"
-        policy_matrix = np.array(self[mdp.state_list,][:,mdp.action_list])
+        policy_matrix = self._policy_matrix_on(mdp)
         absorbing_state_vec = mdp.absorbing_state_vec.astype(bool)
         state_rewards = np.einsum(
             "sa,sa->s",
